@@ -192,10 +192,10 @@ class LogarithmicUnitType(UnitType):
         return value + exp
         
     def _convert_B_Np(self, value):
-        return 1.151277918*value
+        return value*np.log(10)/2     # 1 B = ln(10)/2 Np
         
     def _convert_Np_B(self, value):
-        return value/1.151277918
+        return value/(np.log(10)/2)
         
     def _convert_Ratio_B(self, value, exp, conv):
         return exp*np.log10(value*conv)
